@@ -30,7 +30,7 @@ EXHAUSTIVE = {"quick": "all histories of length <= 2 over the reduced alphabet, 
 TRUSTED = ["networkx Graph / DiGraph taken at face value (each layer is one of them)",
            "Python view objects are observed through dict(...) / list(...)",
            "harness/c02.py packs the answers of the real object the way Model.obs packs the model's"]
-ASSUMPTIONS = ["attribute keys a0,a1 with values 0..3; node labels ints (label families are C15's job)",
+ASSUMPTIONS = ["attribute keys a0,a1 (stream attrkeys: parameter names such as edge_type / graphs / name and int keys) with values 0..3; node labels ints (label families are C15's job)",
                "bulk arguments are passed as list / tuple / generator / set, with duplicated, absent and no elements; the list "
                "behind them is snapshotted and must be unchanged after the call, and the same list object is reused for a "
                "later equal argument. A networkx graph handed to add_edge_type is adopted as the layer by design (no copy): "
@@ -116,6 +116,13 @@ def gen_cases(tier, rng):
         aim = rng.choice([[13, 0, ab, fl], [13, 0, ab, fl], [5, 0, ab, fl], [1, 0, ab, [[0, 1]], fl]])
         yield {"kind": "coincide-aimed", "cls": cls, "N": 5, "_lab": "coincide",
                "ops": pre + [aim] + random_history(rng, cls, rng.choice([0, 4]), N=5)}
+    # attribute keys that collide with parameter names of the methods copy()/subgraph() call internally, and non-string keys
+    NK = [["node_for_adding", 5], ["attr", "n"], ["nodes_for_adding", 0]]
+    EK = [["edge_type", "u_of_edge"], ["v_of_edge", 3], ["edge_type", 0], ["ebunch_to_add", "attr"]]
+    GK = [["graphs", "edge_types"], ["name", 7], ["directed_edge_name", "graphs"], ["incoming_directed_edges", 0]]
+    for i in range(200 if quick else 2000):
+        yield {"kind": "attrkeys", "cls": i % 2, "N": 4, "_keys": [rng.choice(NK), rng.choice(EK), rng.choice(GK)],
+               "ops": random_history(rng, i % 2, 12)}
     n_rand, length = (260, 25) if quick else (260, 200)
     for i in range(n_rand):
         cls = i % 2
@@ -157,21 +164,25 @@ def decode(case, v):
 
 
 # ------------------------------------------------------------------ implementation side
-def _acode(d):
+_KEYS = {"n": AK, "e": AK, "g": AK}   # python attribute keys standing for the model's keys 0, 1 (per case: case["_keys"])
+
+
+def _acode(d, kind):
+    keys = _KEYS[kind]
     c = 0
-    for i, k in enumerate(AK):
+    for i, k in enumerate(keys):
         if k in d:
             c += (1 + d[k]) * (5 ** i)
-    extra = [k for k in d if k not in AK]
+    extra = [k for k in d if k not in keys]
     if extra:
         return ["extra-attr-keys", sorted(map(str, extra))]
     return c
 
 
-def _ocode(d):
+def _ocode(d, kind):
     if d is None:
         return 0
-    c = _acode(d)
+    c = _acode(d, kind)
     return c if isinstance(c, list) else 1 + c
 
 
@@ -179,8 +190,8 @@ def _pack(bits):
     return sum((1 << i) for i, b in enumerate(bits) if b)
 
 
-def _adict(pairs):
-    return {"a%d" % k: v for k, v in pairs}
+def _adict(pairs, kind):
+    return {_KEYS[kind][k]: v for k, v in pairs}
 
 
 class _Obs:
@@ -209,9 +220,9 @@ class _Obs:
         t = [0] * (N * N)
         for a, b, d in es:
             a, b = self.inv(a), self.inv(b)
-            t[a * N + b] = _ocode(d)
+            t[a * N + b] = _ocode(d, "e")
             if not directed:
-                t[b * N + a] = _ocode(d)
+                t[b * N + a] = _ocode(d, "e")
         return t
 
     def btbl(self, f):
@@ -220,7 +231,7 @@ class _Obs:
     def state(self):
         G, N, U = self.G, self.N, self.U
         nd = dict(G.nodes(data=True))
-        nodes = [(_ocode(nd[x]) if x in nd else 0) for x in U]
+        nodes = [(_ocode(nd[x], "n") if x in nd else 0) for x in U]
         if any(x not in U for x in nd):
             nodes.append("node-outside-universe")
 
@@ -228,7 +239,7 @@ class _Obs:
             lg = G.get_graphs(nm)
             return [1 if lg.is_directed() else 0, _pack([x in lg.nodes for x in U]),
                     self.table_from_edges(lg.edges(data=True), lg.is_directed())]
-        return [nodes, _acode(G.graph), self.per_layer(G.edge_types, layer)]
+        return [nodes, _acode(G.graph, "g"), self.per_layer(G.edge_types, layer)]
 
     def full(self):
         G, N, U, g = self.G, self.N, self.U, self.guard
@@ -294,7 +305,7 @@ class _Obs:
                 t = [0] * (N * N)
                 for u, nbrs in al.items():
                     for v, dd in nbrs.items():
-                        t[self.inv(u) * N + self.inv(v)] = _ocode(dd)
+                        t[self.inv(u) * N + self.inv(v)] = _ocode(dd, "e")
                 out[nm] = t
             return self.per_layer(out.keys(), lambda nm: out[nm])
         d["adj"] = g(adj)
@@ -412,6 +423,7 @@ def _apply(objs, op, lab, N):
     """apply one op; returns (exception name or None, note)"""
     import networkx as nx
     base = snap = None
+    exotic = _KEYS["e"] is not AK
     code, o = op[0], op[1]
     a = op[2:]
     if o >= len(objs) or objs[o] is None:
@@ -420,14 +432,24 @@ def _apply(objs, op, lab, N):
     et = lambda t: LNAMES[t] if t < 4 else "all"  # noqa: E731
     try:
         if code == 0:
-            G.add_node(lab(a[0]), **_adict(a[1]))
+            if exotic and a[1]:      # keys that cannot be keyword arguments go through the (node, dict) form
+                G.add_nodes_from([(lab(a[0]), _adict(a[1], "n"))])
+            else:
+                G.add_node(lab(a[0]), **_adict(a[1], "n"))
         elif code == 1:
-            arg, base, snap = _bulk("n", [lab(n) for n in a[0]], a[2] if len(a) > 2 else 0)
-            G.add_nodes_from(arg, **_adict(a[1]))
+            if exotic and a[1]:
+                arg, base, snap = _bulk("nd", [(lab(n), _adict(a[1], "n")) for n in a[0]], a[2] if len(a) > 2 else 0)
+                G.add_nodes_from(arg)
+            else:
+                arg, base, snap = _bulk("n", [lab(n) for n in a[0]], a[2] if len(a) > 2 else 0)
+                G.add_nodes_from(arg, **_adict(a[1], "n"))
         elif code == 2:
-            G.add_edge(lab(a[0]), lab(a[1]), et(a[2]), **_adict(a[3]))
+            if exotic and a[3]:      # e.g. the attribute key "edge_type": only expressible through an edge triple
+                G.add_edges_from([(lab(a[0]), lab(a[1]), _adict(a[3], "e"))], et(a[2]))
+            else:
+                G.add_edge(lab(a[0]), lab(a[1]), et(a[2]), **_adict(a[3], "e"))
         elif code == 3:
-            eb = [((lab(u), lab(v), _adict(d)) if d else (lab(u), lab(v))) for u, v, d in a[0]]
+            eb = [((lab(u), lab(v), _adict(d, "e")) if d else (lab(u), lab(v))) for u, v, d in a[0]]
             arg, base, snap = _bulk("e3", eb, a[2] if len(a) > 2 else 0)
             G.add_edges_from(arg, et(a[1]))
         elif code == 4:
@@ -448,7 +470,7 @@ def _apply(objs, op, lab, N):
         elif code == 10:
             G.remove_edge_type(LNAMES[a[0]])
         elif code == 11:
-            G.graph.update(_adict(a[0]))
+            G.graph.update(_adict(a[0], "g"))
         elif code == 12:
             objs.append(None)
             objs[-1] = G.copy()
@@ -489,6 +511,8 @@ def run_impl(case):
     from pywhy_graphs import ADMG
     lab, inv = _labeler(case)
     N = case["N"]
+    ks = case.get("_keys")
+    _KEYS.update({"n": AK, "e": AK, "g": AK} if not ks else {"n": ks[0], "e": ks[1], "g": ks[2]})
     _decoy()
     if case.get("init"):
         import networkx as nx
